@@ -1,3 +1,4 @@
+import Netconan.Proofs.NetPins
 import Netconan.Proofs.MaskShape
 import Netconan.Model.IpText
 import Netconan.Proofs.IpInt
@@ -58,5 +59,17 @@ example : isMask 0xFFFFFF00 = true ∧ isMask 0xFFFFFF01 = false ∧ isMask 0x00
     ∧ isMask 0x010000FF = false ∧ isMask 0 = true ∧ isMask 0xFFFFFFFF = true := by decide
 example : shouldAnonymize [⟨0x0A000000, 8⟩] 0x0A010203 = false
     ∧ shouldAnonymize [⟨0x0A000000, 8⟩] 0x0B010203 = true := by decide
+
+open NoSurvival IpText in
+/-- **Text level**: a dotted quad that is netmask-shaped or inside a preserved network is written back as it
+stands; every other one is replaced by the spelling of an address outside every preserved network (networks
+registered as preserved prefixes, as the constructor does). -/
+theorem text_level_untouched_and_no_collision (c : IpCfg) (hf : c.fam6 = false) (hnp : NetsPinned c.nets c.pins)
+    (t : List Char) (ht : Lang core4 t) :
+    ∃ n, parseV4 t = .ok n ∧ n < 2 ^ 32 ∧
+      ((Mask.isMask n = true ∨ c.nets.any (·.contains n) = true) → anonMatch c false t = t) ∧
+      (Mask.isMask n = false → c.nets.any (·.contains n) = false →
+        ∃ m, anonMatch c false t = showV4 m ∧ parseV4 (showV4 m) = .ok m ∧ c.nets.any (·.contains m) = false) :=
+  replaced_token_outside_nets c hf hnp t ht
 
 end Netconan.Props.C05
